@@ -11,8 +11,8 @@
    CHECKED BY EXECUTION: every printable stage (Core, focused Core, AxCut, linearized AxCut, the
    three assembly outputs) compared byte for byte, up to the numbering of generated labels in
    assembly code, between two compilations in one process, a compilation after unrelated
-   compilations, and three fresh processes (fresh hash seeds).  Not proved: that the label
-   counter only renumbers labels (checked by the normalising comparison). *)
+   compilations, and three fresh processes (fresh hash seeds).  That the label counter only
+   renumbers labels is proved in round 2 (end of this file). *)
 From Coq Require Import List NArith Permutation.
 From SCC Require Import Lang.AxSyn Model.Linearize Model.Backend Model.X86 Proof.Determinism.
 From Coq Require Import String Bool.
